@@ -53,6 +53,10 @@ DOC = {
 KINDS = "EWSCD"
 
 
+NONEV = ("none",)
+OPNAMES = ("__or__", "__and__", "__sub__", "__xor__", "__invert__", "__neg__", "__add__", "__mul__")
+
+
 class KindInfer:
     def __init__(self, ctx):
         self.ctx = ctx
@@ -80,63 +84,179 @@ class KindInfer:
         return res
 
     def truth(self, test, env):
+        t, f = self.split(None, test, env, None)
+        return True if t and not f else False if f and not t else None
+
+    # -- path splitting: a guard gives the environments in which it holds / does not hold (kinds refined)
+    def split(self, fn, test, env, selfkind):
         test, neg = pat._strip_not(test)
-        r = None
+        t, f = self._split(fn, test, env, selfkind)
+        return (f, t) if neg else (t, f)
+
+    def _split(self, fn, test, env, selfkind):
         if isinstance(test, ast.BoolOp):
-            vals = [self.truth(v, env) for v in test.values]
             if isinstance(test.op, ast.Or):
-                r = True if any(v is True for v in vals) else (False if all(v is False for v in vals) else None)
-            else:
-                r = False if any(v is False for v in vals) else (True if all(v is True for v in vals) else None)
+                true, rest = [], [env]
+                for v in test.values:
+                    nrest = []
+                    for r in rest:
+                        t, f = self.split(fn, v, r, selfkind)
+                        true += t
+                        nrest += f
+                    rest = nrest
+                return true, rest
+            false, rest = [], [env]
+            for v in test.values:
+                nrest = []
+                for r in rest:
+                    t, f = self.split(fn, v, r, selfkind)
+                    false += f
+                    nrest += t
+                rest = nrest
+            return rest, false
         if isinstance(test, ast.Call) and isinstance(test.func, ast.Name) and test.func.id == "isinstance" \
-                and isinstance(test.args[0], ast.Name) and test.args[0].id in env:
-            ks = env[test.args[0].id]
+                and isinstance(test.args[0], ast.Name) and isinstance(env.get(test.args[0].id), frozenset):
+            name = test.args[0].id
+            ks = env[name]
             c = test.args[1]
             names = [c.id] if isinstance(c, ast.Name) else [x.id for x in c.elts if isinstance(x, ast.Name)]
-            hit = {k for k in ks if any(n in self.ctx.model.mro(CLS[k]) for n in names)}
-            r = True if hit == set(ks) else False if not hit else None
-        if r is None:
-            return None
-        return (not r) if neg else r
+            if all(k in CLS for k in ks):
+                hit = frozenset(k for k in ks if any(n in self.ctx.model.mro(CLS[k]) for n in names))
+                t = [dict(env, **{name: hit})] if hit else []
+                f = [dict(env, **{name: ks - hit})] if ks - hit else []
+                return t, f
+        probe = None
+        if isinstance(test, ast.Compare) and len(test.ops) == 1 and isinstance(test.ops[0], (ast.Is, ast.IsNot, ast.Eq, ast.NotEq)) \
+                and isinstance(test.comparators[0], ast.Constant) and test.comparators[0].value is None \
+                and isinstance(test.left, ast.Name) and test.left.id in env:
+            v = env[test.left.id]
+            if v == NONEV or (isinstance(v, tuple) and v and v[0] == "tuple"):
+                holds = (v == NONEV) == isinstance(test.ops[0], (ast.Is, ast.Eq))
+                return ([env], []) if holds else ([], [env])
+        if isinstance(test, ast.Name) and test.id in env:
+            probe = env[test.id]
+        if probe is not None and (probe == NONEV or (isinstance(probe, tuple) and probe and probe[0] == "tuple")):
+            truthy = probe != NONEV and len(probe[1]) > 0
+            return ([env], []) if truthy else ([], [env])
+        return [env], [env]          # geometric tests (containment, emptiness of the core ...): both outcomes
 
     def run(self, fn, body, env, selfkind):
+        falls, rets = self.exec_block(fn, body, [dict(env)], selfkind, 0)
         out = frozenset()
-        for st in body:
-            if isinstance(st, (ast.Assert, ast.Pass)) or (isinstance(st, ast.Expr) and isinstance(st.value, ast.Constant)):
-                continue
-            if isinstance(st, ast.If):
-                t = self.truth(st.test, env)
-                if t is not False:
-                    out |= self.run(fn, st.body, dict(env), selfkind)
-                    if t is True and any(isinstance(s, ast.Return) for s in st.body):
-                        return out
-                if t is not True and st.orelse:
-                    out |= self.run(fn, st.orelse, dict(env), selfkind)
-                continue
-            if isinstance(st, ast.Assign) and len(st.targets) == 1 and isinstance(st.targets[0], ast.Name):
-                env[st.targets[0].id] = self.ev(fn, st.value, env, selfkind)
-                continue
-            if isinstance(st, ast.AugAssign) and isinstance(st.target, ast.Name):
-                env[st.target.id] = self.ev(fn, ast.BinOp(left=ast.Name(id=st.target.id, ctx=ast.Load()), op=st.op,
-                                                          right=st.value), env, selfkind)
-                continue
-            if isinstance(st, ast.Return):
-                return out | self.ev(fn, st.value, env, selfkind)
-            if isinstance(st, ast.Raise):
-                return out
-            raise Undecided("statement " + U(st)[:50])
+        for _, val in rets:
+            if not isinstance(val, frozenset):
+                raise Undecided("an operator path returns a value that is not a shape")
+            out |= val
         return out
+
+    def exec_block(self, fn, body, envs, selfkind, depth):
+        rets = []
+        for st in body:
+            if not envs:
+                break
+            nxt = []
+            for env in envs:
+                out, r = self.exec_stmt(fn, st, env, selfkind, depth)
+                nxt += out
+                rets += r
+            envs = nxt
+        return envs, rets
+
+    def exec_stmt(self, fn, st, env, selfkind, depth):
+        if isinstance(st, (ast.Assert, ast.Pass)) or (isinstance(st, ast.Expr) and isinstance(st.value, ast.Constant)):
+            return [env], []
+        if isinstance(st, ast.Return) and isinstance(st.value, ast.IfExp):
+            st = ast.If(test=st.value.test, body=[ast.Return(value=st.value.body)], orelse=[ast.Return(value=st.value.orelse)])
+        if isinstance(st, ast.If):
+            t, f = self.split(fn, st.test, env, selfkind)
+            ft, r1 = self.exec_block(fn, st.body, [dict(e) for e in t], selfkind, depth)
+            ff, r2 = self.exec_block(fn, st.orelse, [dict(e) for e in f], selfkind, depth)
+            return ft + ff, r1 + r2
+        if isinstance(st, ast.Assign) and len(st.targets) == 1:
+            out = []
+            for env2, val in self.eval_multi(fn, st.value, env, selfkind, depth):
+                env3 = dict(env2)
+                self.bind(st.targets[0], val, env3)
+                out.append(env3)
+            return out, []
+        if isinstance(st, ast.AugAssign) and isinstance(st.target, ast.Name):
+            env3 = dict(env)
+            env3[st.target.id] = self.ev(fn, ast.BinOp(left=ast.Name(id=st.target.id, ctx=ast.Load()), op=st.op,
+                                                       right=st.value), env, selfkind)
+            return [env3], []
+        if isinstance(st, ast.Return):
+            if st.value is None:
+                return [], [(env, NONEV)]
+            return [], list(self.eval_multi(fn, st.value, env, selfkind, depth))
+        if isinstance(st, ast.Raise):
+            return [], []
+        if isinstance(st, ast.Expr):
+            return [e for e, _ in self.eval_multi(fn, st.value, env, selfkind, depth)], []
+        raise Undecided("statement " + U(st)[:50])
+
+    def bind(self, target, val, env):
+        if isinstance(target, ast.Name):
+            env[target.id] = val
+        elif isinstance(target, (ast.Tuple, ast.List)) and isinstance(val, tuple) and val and val[0] == "tuple" \
+                and len(val[1]) == len(target.elts):
+            for t, v in zip(target.elts, val[1]):
+                self.bind(t, v, env)
+        elif isinstance(target, (ast.Tuple, ast.List)):
+            for t in target.elts:
+                self.bind(t, frozenset("?"), env)
+        else:
+            raise Undecided("assignment to " + U(target)[:40])
+
+    def eval_multi(self, fn, e, env, selfkind, depth):
+        """[(environment, value)]; a private helper of the shape module is evaluated by inlining its body"""
+        if isinstance(e, ast.Call) and fn is not None:
+            inf = self.ctx.typer.of(fn)
+            tgs = inf.targets(e, ("call",))
+            t = tgs[0] if len(tgs) == 1 else None
+            if t is not None and t.mod == "shape" and t.cls not in ("FollowPath", "IntegrateShape") \
+                    and t.name.startswith("_") and not t.name.endswith("__") and t.name not in OPNAMES:
+                if depth >= 4:
+                    raise Undecided("helper nesting too deep at " + U(e)[:40])
+                names = [a.arg for a in t.node.args.posonlyargs + t.node.args.args]
+                args = [self.ev(fn, a, env, selfkind) for a in e.args]
+                if t.kind in ("method", "getter") and isinstance(e.func, ast.Attribute):
+                    args = [self.ev(fn, e.func.value, env, selfkind)] + args
+                cenv = dict(zip(names, args))
+                for k in e.keywords:
+                    if k.arg in names:
+                        cenv[k.arg] = self.ev(fn, k.value, env, selfkind)
+                if set(names) - set(cenv):
+                    raise Undecided("helper call with unbound parameters: " + U(e)[:40])
+                falls, rets = self.exec_block(t, t.node.body, [cenv], selfkind, depth + 1)
+                return [(env, val) for _, val in rets] + [(env, NONEV) for _ in falls]
+        return [(env, self.ev(fn, e, env, selfkind))]
 
     def ev(self, fn, e, env, selfkind):
         inf = self.ctx.typer.of(fn)
+        if isinstance(e, ast.Constant) and e.value is None:
+            return NONEV
         if isinstance(e, ast.Name):
             if e.id in env:
                 return env[e.id]
+            if e.id in CLS.values():
+                return ("class", e.id)
             raise Undecided("name " + e.id)
+        if isinstance(e, (ast.Tuple, ast.List)):
+            return ("tuple", tuple(self.ev(fn, x, env, selfkind) for x in e.elts))
+        if isinstance(e, ast.Subscript) and isinstance(e.slice, ast.Constant) and isinstance(e.slice.value, int):
+            v = self.ev(fn, e.value, env, selfkind)
+            if isinstance(v, tuple) and v and v[0] == "tuple":
+                return v[1][e.slice.value]
+            return frozenset("?")
         if isinstance(e, ast.Call):
             f = e.func
             tg = pat.call_targets(inf, e)
             t = inf.typeof(e)
+            if isinstance(f, ast.Name) and isinstance(env.get(f.id), tuple) and env[f.id] and env[f.id][0] == "class":
+                inv = {v: k for k, v in CLS.items()}
+                if env[f.id][1] in inv and inv[env[f.id][1]] in "EW":
+                    return frozenset(inv[env[f.id][1]])
+                raise Undecided("class value called: " + U(e)[:40])
             if isinstance(f, ast.Name) and f.id == "WholeShape":
                 return frozenset("W")
             if isinstance(f, ast.Name) and f.id == "EmptyShape":
